@@ -63,6 +63,7 @@ func init() {
 }
 
 func runC14(p *chk.Prog, r *chk.Report) {
+	scratchRule(p, r, frrPkg)
 	ts := c14Templates(p, r)
 	if ts != nil {
 		c14Cover(p, r, ts)
@@ -575,6 +576,23 @@ func c14Merge(p *chk.Prog, r *chk.Report) {
 			}
 			for _, fld := range []string{"Prefix", "IPFamily", "LocalPref"} {
 				x.Check("mergeAdvertisements:equal-"+fld, rt.Pos(), g.Dominated(rt, g.GPat(false, "A."+fld+" != B."+fld, chk.H("A", a), chk.H("B", b))), "", "advertisements with different "+fld+" can be merged into one entry (one of the requested values is lost)")
+			}
+			// the merged entry carries the communities and the large communities of both inputs (never one input as it is)
+			for _, fld := range []string{"Communities", "LargeCommunities"} {
+				res := rr[0]
+				ok := !a(res) && !b(res)
+				if ok {
+					same := func(e ast.Expr) bool { return f.SameExpr(e, res) }
+					isSet := func(n ast.Node) bool {
+						return f.IsAssignPat("R."+fld, "mergeCommunities(A."+fld+", B."+fld+")", chk.H("R", same), chk.H("A", a), chk.H("B", b))(n) ||
+							f.IsAssignPat("R."+fld, "mergeCommunities(B."+fld+", A."+fld+")", chk.H("R", same), chk.H("A", a), chk.H("B", b))(n)
+					}
+					node := rt.Node
+					w := g.MustPass(chk.Site{}, func(n ast.Node) bool { return n == node }, false, isSet)
+					inLit := f.MatchWith("&advertisementConfig{"+fld+": mergeCommunities(A."+fld+", B."+fld+")}", f.Resolve(res), chk.H("A", a), chk.H("B", b)) != nil
+					ok = !w.Found || inLit
+				}
+				x.Check("mergeAdvertisements:union-of-"+fld, rt.Pos(), ok, "", "a merged advertisement can lose the "+fld+" of one of the two requests (returned without merging both lists)")
 			}
 		}
 	}
